@@ -142,6 +142,16 @@ CLAIMS = {
         note='Not decided: agreement of the structural validator TopicFilter::is_valid / TryFrom<ByteString> with is_valid (iterator-combinator code, no finite table), Display '
              'round trip, unicode levels. A seeded change in that undecided part (C18-m2) is a documented miss.',
         ref='DESIGN.md section 5 C18'),
+    'C04': dict(
+        technique='MIR edge-dominance rules on the response queue (head condition, park, slot-per-call) + constants of the control pipeline (static analysis)',
+        text='Necessary conditions on all paths of src/io.rs: both response writes of handle_result are dominated by the `response_idx - base == 0` edge, the drain loop writes '
+             'only items taken from the queue front, every pop advances base by exactly one; on the non-head edge the result is parked at index response_idx - base or recorded '
+             'as error and nothing is written; the inline fast path writes only when nothing is pending and the queue is empty; the only write in poll() is the control answer in '
+             'the Stop arm; every place that keeps a pending handler future has exactly one Pending slot whose index is base + queue.len() read before the push; the spawned '
+             'task reports with the captured index; control messages are serialised (InFlightService(1) inside BufferService(16), constants by value).',
+        note='Not decided: the wrapping index arithmetic for all completion permutations (runtime integers: a model checker or exploration harness is the right tool); '
+             'queue[idx] in-bounds is assumed.',
+        ref='DESIGN.md section 5 C04'),
 }
 
 NA_REASONS = {}
